@@ -11,7 +11,9 @@ CONSTANTS
   SpecialCids = {}
   Journal = FALSE
   DumpFile = FALSE
+  VersionedCids = {}
   Raisers = {}
+  Conform = TRUE
   InitConnected = TRUE
   Membership = FALSE
   CompactMin = 1000000
